@@ -21,35 +21,39 @@ CONSTANTS Depth, MaxBurst,
           MaxSick,  \* sessions added "sick": registered and alive, but their last health ping failed (ManagedMuxSession.State() is
                     \* Error; the harness lets the peer swallow that one ping's answer). For the design they are ordinary
                     \* sessions: usable = registered and alive.
+          MaxIdle,  \* how often the channel is left alone until gRPC has put it into IDLE (the harness gives the real
+                    \* MultiClientConn a short grpc.WithIdleTimeout for such schedules and waits for connectivity.Idle)
           MaxReset  \* how often the peer resets the gRPC transport stream of a live session (Reset)
-VARIABLES hist, bursts, hold, holds, sicks, resets
+VARIABLES hist, bursts, hold, holds, sicks, resets, idles
 Cmd(r) == hist' = Append(hist, r)
-SimInit == Init /\ hist = <<>> /\ bursts = 0 /\ hold = 0 /\ holds = 0 /\ sicks = 0 /\ resets = 0
+SimInit == Init /\ hist = <<>> /\ bursts = 0 /\ hold = 0 /\ holds = 0 /\ sicks = 0 /\ resets = 0 /\ idles = 0
 Newest == CHOOSE k \in Id : sstate[k] # "none" /\ \A j \in Id : sstate[j] # "none" => j <= k
 \* a wedged session is only added next to an ordinary live one (the "wedged sibling");
 \* calls are issued only while an ordinary (not wedged) session is alive or nothing is registered: with only a wedged
 \* session registered gRPC keeps connecting and a call would just sit out its deadline
 CallsOk == Live \ wedged # {} \/ table = {}
 EnvStep ==
-  \/ (hold = 0 /\ \E w \in BOOLEAN : (w => Live \ wedged # {}) /\ AddK(w) /\ Cmd([a |-> "Add", k |-> 0, w |-> w, hold |-> FALSE]) /\ UNCHANGED <<bursts, hold, holds, sicks, resets>>)
+  \/ (hold = 0 /\ \E w \in BOOLEAN : (w => Live \ wedged # {}) /\ AddK(w) /\ Cmd([a |-> "Add", k |-> 0, w |-> w, hold |-> FALSE]) /\ UNCHANGED <<bursts, hold, holds, sicks, resets, idles>>)
   \/ (hold = 0 /\ holds < MaxHold /\ Live # {} /\ AddK(FALSE) /\ hold' = 1 /\ holds' = holds + 1
-        /\ Cmd([a |-> "Add", k |-> 0, w |-> FALSE, hold |-> TRUE]) /\ UNCHANGED <<bursts, sicks, resets>>)
+        /\ Cmd([a |-> "Add", k |-> 0, w |-> FALSE, hold |-> TRUE]) /\ UNCHANGED <<bursts, sicks, resets, idles>>)
   \/ (hold = 0 /\ sicks < MaxSick /\ AddK(FALSE) /\ sicks' = sicks + 1
-        /\ Cmd([a |-> "Add", k |-> 0, w |-> FALSE, hold |-> FALSE, s |-> TRUE]) /\ UNCHANGED <<bursts, hold, holds, resets>>)
+        /\ Cmd([a |-> "Add", k |-> 0, w |-> FALSE, hold |-> FALSE, s |-> TRUE]) /\ UNCHANGED <<bursts, hold, holds, resets, idles>>)
   \/ (hold = 0 /\ resets < MaxReset /\ \E k \in Id : Reset(k) /\ resets' = resets + 1 /\ Cmd([a |-> "Reset", k |-> k])
-        /\ UNCHANGED <<bursts, hold, holds, sicks>>)
-  \/ (hold # 0 /\ Cmd([a |-> "AddRelease", k |-> Newest]) /\ hold' = 0 /\ UNCHANGED <<vars, bursts, holds, sicks, resets>>)
+        /\ UNCHANGED <<bursts, hold, holds, sicks, idles>>)
+  \/ (hold = 0 /\ idles < MaxIdle /\ updated /\ GoIdle /\ idles' = idles + 1 /\ Cmd([a |-> "Idle", k |-> 0])
+        /\ UNCHANGED <<bursts, hold, holds, sicks, resets>>)
+  \/ (hold # 0 /\ Cmd([a |-> "AddRelease", k |-> Newest]) /\ hold' = 0 /\ UNCHANGED <<vars, bursts, holds, sicks, resets, idles>>)
   \/ (\E k \in Id : Kill(k) /\ (hold # 0 => k # Newest) /\ \E how \in {"peer", "local"} : Cmd([a |-> "Kill", k |-> k, how |-> how])
-        /\ UNCHANGED <<bursts, hold, holds, sicks, resets>>)
+        /\ UNCHANGED <<bursts, hold, holds, sicks, resets, idles>>)
   \/ (hold = 0 /\ CallsOk /\ \E r \in Rpc : RpcStart(r) /\ (\A q \in Rpc : q < r => rpc[q] # "idle") /\ Cmd([a |-> "RpcStart", k |-> r])
-        /\ UNCHANGED <<bursts, hold, holds, sicks, resets>>)
-  \/ (hold = 0 /\ \E r \in Rpc : RpcDone(r) /\ Cmd([a |-> "RpcRelease", k |-> r]) /\ UNCHANGED <<bursts, hold, holds, sicks, resets>>)
-  \/ (hold = 0 /\ CallsOk /\ updated /\ bursts < MaxBurst /\ bursts' = bursts + 1 /\ Cmd([a |-> "Burst", k |-> 0]) /\ UNCHANGED <<vars, hold, holds, sicks, resets>>
+        /\ UNCHANGED <<bursts, hold, holds, sicks, resets, idles>>)
+  \/ (hold = 0 /\ \E r \in Rpc : RpcDone(r) /\ Cmd([a |-> "RpcRelease", k |-> r]) /\ UNCHANGED <<bursts, hold, holds, sicks, resets, idles>>)
+  \/ (hold = 0 /\ CallsOk /\ updated /\ bursts < MaxBurst /\ bursts' = bursts + 1 /\ Cmd([a |-> "Burst", k |-> 0]) /\ UNCHANGED <<vars, hold, holds, sicks, resets, idles>>
       /\ (Len(hist) = 0 \/ hist[Len(hist)].a # "Burst"))
-Pad == ~ENABLED EnvStep /\ Cmd([a |-> "Pad", k |-> 0]) /\ UNCHANGED <<vars, bursts, hold, holds, sicks, resets>>
+Pad == ~ENABLED EnvStep /\ Cmd([a |-> "Pad", k |-> 0]) /\ UNCHANGED <<vars, bursts, hold, holds, sicks, resets, idles>>
 SimNext ==
   /\ Len(hist) < Depth
-  /\ IF ENABLED Internal THEN Internal /\ UNCHANGED <<hist, bursts, hold, holds, sicks, resets>>
+  /\ IF ENABLED Internal THEN Internal /\ UNCHANGED <<hist, bursts, hold, holds, sicks, resets, idles>>
      ELSE EnvStep \/ Pad
   /\ (Len(hist') = Depth /\ Len(hist) < Depth => PrintT(ToJson(hist')))
 =============================================================================
